@@ -1,8 +1,8 @@
 package mon
 
 import (
-	"math"
 	"fmt"
+	"math"
 	"math/rand"
 	"strconv"
 	"strings"
@@ -308,6 +308,9 @@ func (c08) Case(c *core.Ctx) {
 		// a long key name high up: path length in characters and in segments then disagree
 		root = jv.M{"configuration-section": root, "x": jv.M{"y": g.Value(r, 2, false)}}
 	}
+	if r.Intn(6) == 0 && !jv.HasListInList(root) {
+		c.Add("shape:aliased-submaps", int64(jv.Alias(r, root, 1+r.Intn(2), nil)))
+	}
 	m := mxj.Map(root)
 	oneIn := 6
 	if &keys[0] == &hostileKeys[0] {
@@ -325,6 +328,7 @@ func (c08) Case(c *core.Ctx) {
 	}
 	before := jv.Fp(root)
 	c.Eval()
+	failedCalls(c, 8)
 
 	got, err := m.ValuesForKey(k)
 	var want []interface{}
